@@ -616,7 +616,8 @@ def synth_cases(rng, n, big=0):
         hs = 32 if rng.random() < 0.2 else 20
         ver = rng.choice([2, 3, 4])
         if i < big:       # beyond bufio's 4096-byte buffer and beyond the 12 KB of one hex literal: several long names, many entries
-            es = rentries(rng, hs, rng.choice([20, 60, 150]), maxlong=rng.choice([2, 4, 8]))
+            # (the first one has more than 255 entries and more than 4096 bytes before its extensions)
+            es = rentries(rng, hs, 300 if i == 0 else rng.choice([20, 60, 150]), maxlong=1 if i == 0 else rng.choice([2, 4, 8]))
         else:
             es = rentries(rng, hs, pick_weighted(rng, [(1, 0), (3, 1), (4, 3), (3, 6), (1, 12)]))
         for e in es:
